@@ -8,7 +8,7 @@ PROPERTY = 'C08'
 LEVEL = 'exploration'
 RULE = ('file contents of length 0..6: ALL 2^(n-1) compositions into sync DATA records x ALL sets of <=k cut positions of the resulting sync byte stream into '
         'WRTE payloads (so every 8-byte sync header is split at every offset) + the all-1-byte chunking, destinations path/BytesIO, callback none/counting/'
-        'raising, both twins, read-fragment deviations; zero-length WRTEs inside the reply; a pull following an aborted pull on the same connection; device paths outside ASCII (one a prefix of another) with the exact UTF-8 path seen by the device; large files (64 KiB boundaries, MiB) x record sizes x WRTE sizes; oracle: destination bytes == model '
+        'raising, both twins, read-fragment deviations; zero-length WRTEs inside the reply; zero-size DATA records; a pull following an aborted pull on the same connection; device paths outside ASCII (one a prefix of another) with the exact UTF-8 path seen by the device; large files (64 KiB boundaries, MiB) x record sizes x WRTE sizes; oracle: destination bytes == model '
         'file, stream closed with exactly one host CLSE and every device packet consumed, callback counts sum to the size; non-trivial = file non-empty; '
         'distinct = distinct (content length, composition, cut set, destination, callback, twin, deviations)')
 ASSUMPTIONS = ['adbsim sync service (mc/adbsim.py) follows SYNC.TXT', 'file contents are seeded pseudo-random bytes; only length and chunking are enumerated']
@@ -101,6 +101,16 @@ def run_paths(params, ch):
         s.finish()
 
 
+def run_zero_records(params, ch):
+    """DATA records of size 0 among the others (SYNC.TXT allows any size up to 64 KiB): they carry nothing and must change nothing."""
+    data = content(params['n'], 'zero')
+    comp = list(params['records'])
+    blob_len = sum(8 + c for c in comp) + 8
+    cuts = oracle.choose_cuts(ch, blob_len, params['kmax'])
+    cfg = {'fs': {'files': {b'/f': {'data': data, 'mode': 0o100644, 'mtime': 9}}}, 'records': comp, 'cut': {'at': cuts}}
+    return pull_and_judge(params, ch, cfg, data, (params['n'], tuple(comp), tuple(cuts)))
+
+
 def run_after_abort(params, ch):
     """A pull that is aborted while sync bytes are buffered (the destination fails, or the device service dies mid-record), then an
     ordinary pull on the same connection: it must deliver exactly its file."""
@@ -154,6 +164,8 @@ def parts(tier):
     out.append(Part('dest-x-callback', sc, run_small, {'*': None}, what='destination path/BytesIO x callback none/counting/raising; all-1-byte chunking', bound='<=1 cut'))
     sc = [{'n': n, 'twin': t, 'dest': 'bytesio', 'cb': cb, 'kmax': 1, 'okay': 'late'} for n in range(0, 6) for t in twins for cb in (None, 'count')]
     out.append(Part('reply-before-okay', sc, run_small, {'*': None}, what='DATA records overtaking the OKAY that acknowledges the RECV request', bound='<=1 cut'))
+    sc = [{'n': 4, 'records': rec, 'twin': t, 'dest': d, 'cb': cb, 'kmax': 1} for rec in ([0, 4], [2, 0, 2], [0, 0, 4], [1, 0, 3], [4, 0]) for t in twins for d in ('bytesio', 'path') for cb in (None, 'count')]
+    out.append(Part('zero-size-data-records', sc, run_zero_records, {'*': None}, what='DATA records of size 0 in front of, between and after the others, every single cut', bound='%d cases x every single cut' % len(sc)))
     sc = [{'n': n, 'twin': t, 'dest': 'bytesio', 'cb': cb, 'kmax': 1, 'empty_at': e} for n in (0, 1, 4) for t in twins for cb in (None, 'count') for e in (0, 1, 2)]
     out.append(Part('empty-wrte-in-reply', sc, run_small, {'*': None}, what='a zero-length WRTE in front of piece 0/1/2 of the RECV reply (and of the STAT reply of a callback), all compositions, every single cut', bound='<=1 cut'))
     sc = [{'n': n, 'twin': t, 'dest': 'bytesio', 'cb': cb, 'kmax': 1, 'frag': True} for n in (1, 4) for t in twins for cb in (None, 'count')]
